@@ -76,7 +76,11 @@ func JudgeSeam(op *Op, uid string, enc *OpResult, dec *OpResult) (sig, class, de
 		return fmt.Sprintf("mis-declared-stream: %s decode-panics", uid), "geometry", "the stream Encode returned makes Decode panic: " + dec.Panic + " at " + dec.PanicLoc
 	}
 	if dec.Err {
-		return fmt.Sprintf("mis-declared-stream: %s undecodable", uid), "geometry", "the stream Encode returned is rejected by Decode of the same codec: " + dec.ErrText
+		// the signature names the class of input and the normalised rejection, so that a known
+		// finding about one class (say, samples wider than the declared BitsStored) does not
+		// cover a different way of returning an undecodable stream
+		return fmt.Sprintf("mis-declared-stream: %s undecodable [%s] %s", uid, inputClass(in, enc.In), normErr(dec.ErrText)), "geometry",
+			"the stream Encode returned is rejected by Decode of the same codec: " + dec.ErrText
 	}
 	want := need
 	if uid == "1.2.840.10008.1.2.5" && want%2 == 1 {
@@ -89,4 +93,60 @@ func JudgeSeam(op *Op, uid string, enc *OpResult, dec *OpResult) (sig, class, de
 		}
 	}
 	return "", "", ""
+}
+
+// inputClass names what is unusual about the frames an Encode accepted.
+func inputClass(in Info, frames [][]byte) string {
+	if in.BS > 0 && in.BS < 8*((in.BA+7)/8) {
+		lim := uint32(1) << uint(in.BS)
+		for _, f := range frames {
+			if in.BA <= 8 {
+				for _, b := range f {
+					if uint32(b) >= lim {
+						return "samples-exceed-BitsStored"
+					}
+				}
+			} else if in.BA <= 16 {
+				for i := 0; i+1 < len(f); i += 2 {
+					if uint32(f[i])|uint32(f[i+1])<<8 >= lim {
+						return "samples-exceed-BitsStored"
+					}
+				}
+			}
+		}
+	}
+	switch {
+	case in.W == 1 && in.H == 1:
+		return "one-pixel"
+	case in.W == 1:
+		return "one-column"
+	case in.H == 1:
+		return "one-row"
+	}
+	return "in-range-input"
+}
+
+// normErr reduces an error text to its shape: digit runs become N, at most 72 bytes.
+func normErr(s string) string {
+	out := make([]byte, 0, len(s))
+	prevDigit := false
+	for i := 0; i < len(s); i++ {
+		c := s[i]
+		if c >= '0' && c <= '9' {
+			if !prevDigit {
+				out = append(out, 'N')
+			}
+			prevDigit = true
+			continue
+		}
+		prevDigit = false
+		if c < 0x20 {
+			c = ' '
+		}
+		out = append(out, c)
+	}
+	if len(out) > 72 {
+		out = out[:72]
+	}
+	return string(out)
 }
